@@ -2490,7 +2490,9 @@ class TLSConnection(TLSRecordLayer):
             self._recordLayer.encryptThenMAC = True
 
         if settings.useExtendedMasterSecret:
-            if clientHello.getExtension(ExtensionType.extended_master_secret):
+            # the extended master secret is not defined for SSLv3
+            if clientHello.getExtension(ExtensionType.extended_master_secret) \
+                    and version > (3, 0):
                 extensions.append(TLSExtension().create(ExtensionType.
                                                         extended_master_secret,
                                                         bytearray(0)))
